@@ -42,6 +42,8 @@ type Occ struct {
 	// InForBoundsOfSameName: a read inside the bounds of a numeric for / explist of a generic for
 	// that declares the same name
 	InForBoundsOfSameName bool
+	// Value: for OWrite occurrences the assigned expression when matched positionally (may be nil)
+	Value Exp
 	// Base: the occurrence is the base of an index/call chain (`x` in x.y, x:m(), x[1], x())
 	Base bool
 }
@@ -77,6 +79,10 @@ type GlobalDef struct {
 	TopLevel bool // at the top level of the chunk (not inside a function)
 	Depth    int
 	Value    Exp // assigned value when matched positionally, may be nil
+	// EffectiveOff: the offset from which the definition has taken effect in execution order (the end
+	// of the assignment statement: its right-hand side is evaluated before the targets are assigned)
+	EffectiveOff int
+	StatOff      int // start of the defining statement
 }
 
 type Binding struct {
@@ -193,7 +199,7 @@ func (bd *binder) stat(st Stat, s *scope, blockEnd int) {
 		if len(t.Fields) == 0 && t.Method == nil {
 			o = bd.occ(t.Base, OFuncName, s)
 			if o.Decl == nil {
-				bd.b.GlobalDefs[t.Base.Text] = append(bd.b.GlobalDefs[t.Base.Text], &GlobalDef{Occ: o, TopLevel: s.fn == nil, Depth: s.depth, Value: t.Func})
+				bd.b.GlobalDefs[t.Base.Text] = append(bd.b.GlobalDefs[t.Base.Text], &GlobalDef{Occ: o, TopLevel: s.fn == nil, Depth: s.depth, Value: t.Func, EffectiveOff: t.Base.End, StatOff: t.Off})
 			}
 		} else {
 			o = bd.occ(t.Base, ORead, s)
@@ -216,12 +222,15 @@ func (bd *binder) stat(st Stat, s *scope, blockEnd int) {
 			switch x := tg.(type) {
 			case *NameExp:
 				o := bd.occ(x.Name, OWrite, s)
+				if i < len(t.Exps) {
+					o.Value = t.Exps[i]
+				}
 				if o.Decl == nil {
 					var v Exp
 					if i < len(t.Exps) {
 						v = t.Exps[i]
 					}
-					bd.b.GlobalDefs[x.Name.Text] = append(bd.b.GlobalDefs[x.Name.Text], &GlobalDef{Occ: o, TopLevel: s.fn == nil, Depth: s.depth, Value: v})
+					bd.b.GlobalDefs[x.Name.Text] = append(bd.b.GlobalDefs[x.Name.Text], &GlobalDef{Occ: o, TopLevel: s.fn == nil, Depth: s.depth, Value: v, EffectiveOff: t.End, StatOff: t.Off})
 				}
 			default:
 				bd.exp(tg, s)
